@@ -144,7 +144,7 @@ func cmdVerify(args []string) int {
 		os.MkdirAll(*dumpQ, 0o755)
 		pre := e.Prelude()
 		for _, o := range rep.Obligations {
-			if o.Verdict != "discharged" && o.Query != "" {
+			if (o.Verdict != "discharged" || os.Getenv("GOVC_DUMPALL") != "") && o.Query != "" {
 				os.WriteFile(filepath.Join(*dumpQ, mangle(o.Name)+fmt.Sprintf("_p%d.smt2", o.PathID)), []byte(pre+o.Query), 0o644)
 			}
 		}
@@ -232,8 +232,49 @@ func (e *Engine) VerifyProps(props []string, only map[string]bool, opts runOpts,
 	var wg sync.WaitGroup
 	sem := make(chan struct{}, opts.workers)
 	var mu sync.Mutex
+	// block-reachability candidates: per block, try candidates until one is satisfiable
+	blockGroups := map[string][]*Obligation{}
+	var blockOrder []string
+	for _, o := range rep.Obligations {
+		if o.Cover && strings.Contains(o.Name, "/cover-block#") {
+			if _, ok := blockGroups[o.Name]; !ok {
+				blockOrder = append(blockOrder, o.Name)
+			}
+			blockGroups[o.Name] = append(blockGroups[o.Name], o)
+		}
+	}
+	for _, name := range blockOrder {
+		grp := blockGroups[name]
+		wg.Add(1)
+		sem <- struct{}{}
+		go func(grp []*Obligation) {
+			defer wg.Done()
+			defer func() { <-sem }()
+			found := false
+			for i, o := range grp {
+				if found || i >= 60 {
+					o.Verdict = "skipped"
+					continue
+				}
+				r, all := solve(preludeQF+stripQuantified(o.Query), 5000, "quick")
+				o.Result, o.All = r, all
+				switch r.Verdict {
+				case "sat":
+					o.Verdict = "discharged"
+					found = true
+				case "unsat":
+					o.Verdict = "failed"
+				default:
+					o.Verdict = "undecided"
+				}
+			}
+		}(grp)
+	}
 	for _, o := range rep.Obligations {
 		if o.Verdict != "" || o.Query == "" {
+			continue
+		}
+		if o.Cover && strings.Contains(o.Name, "/cover-block#") {
 			continue
 		}
 		if len(o.Query)+len(prelude) > 2_000_000 {
@@ -350,6 +391,9 @@ func groupObligations(obls []*Obligation) []*groupedObl {
 	var out []*groupedObl
 	rank := map[string]int{"discharged": 0, "undecided": 1, "error": 2, "failed": 3}
 	for _, o := range obls {
+		if o.Verdict == "skipped" {
+			continue
+		}
 		key := o.Name + "@" + o.Pos
 		if o.Kind == "cover" || o.Kind == "requires-sat" {
 			key = o.Name
